@@ -2214,3 +2214,115 @@ Proof.
   pose proof (exec_streams_dbg _ _ _ _ _ _ _ Hd E) as Hd1. specialize (IH d1 Hd1).
   destruct (run_cmds now d1 cs). exact IH.
 Qed.
+
+(** ---- failure atomicity of XREADGROUP (after the repair 3384736) ---- *)
+(** what storage.get does to the keys it visits: an expired key is removed *)
+Definition expire_keys (now : Z) (ks : list bytes) (d : db) : db :=
+  fold_left (fun d k => snd (eng_get now d k)) ks d.
+Lemma get_stream_snd now d k : snd (get_stream now d k) = snd (eng_get now d k).
+Proof. unfold get_stream. destruct (eng_get now d k) as [[[]| |] d1]; reflexivity. Qed.
+
+(** a resolved read: the key holds a stream that is not expired and has the group *)
+Definition resolved (now : Z) (gn : bytes) (d : db) (k : bytes) : Prop :=
+  exists e s, get_entry d k = Some e /\ expired now e = false /\ e_val e = VStream s /\ alookup gn (s_groups s) <> None.
+Lemma resolved_eng_get now gn d k k' : resolved now gn d k -> resolved now gn (snd (eng_get now d k')) k.
+Proof.
+  intros (e & s & H1 & H2 & H3 & H4). unfold eng_get. destruct (get_entry d k') as [e'|] eqn:E; [|exists e, s; auto].
+  destruct (expired now e') eqn:Ex; [|exists e, s; auto]. cbn [snd].
+  exists e, s. split; [|auto]. unfold get_entry, index_del, del_entry. cbn [d_data]. rewrite alookup_aremove.
+  destruct (beq k k') eqn:Eb; [|exact H1]. apply beq_eq in Eb. subst k'. unfold get_entry in *. congruence.
+Qed.
+Lemma resolved_put_group now gn d k e s g k' :
+  get_entry d k = Some e -> resolved now gn d k' -> resolved now gn (put_group d k e s gn g) k'.
+Proof.
+  intros He (e' & s' & H1 & H2 & H3 & H4). unfold put_group, put_stream, resolved. setoid_rewrite get_put_entry.
+  destruct (beq k' k) eqn:Eb; [|exists e', s'; auto].
+  apply beq_eq in Eb. subst k'. assert (e' = e) by congruence. subst e'.
+  eexists _, _. split; [reflexivity|]. split; [exact H2|]. split; [reflexivity|].
+  cbn [set_groups s_groups]. rewrite alookup_aput, beq_refl. discriminate.
+Qed.
+
+Lemma resolve_facts now gn : forall keys ids d acc r d1,
+  Forall (fun ka => resolved now gn d (fst ka)) acc ->
+  xreadgroup_resolve now d gn keys ids acc = (r, d1) ->
+  (exists ks, d1 = expire_keys now ks d) /\
+  (forall reads, r = inr reads -> Forall (fun ka => resolved now gn d1 (fst ka)) reads).
+Proof.
+  induction keys as [|kf keys IH]; intros ids d acc r d1 Hacc; cbn [xreadgroup_resolve].
+  - intros H; inversion H; subst. split; [exists []; reflexivity|]. intros reads Hr; inversion Hr; subst. exact Hacc.
+  - destruct ids as [|idf ids].
+    { intros H; inversion H; subst. split; [exists []; reflexivity|]. intros reads Hr; inversion Hr; subst. exact Hacc. }
+    destruct kf as [ | | |k| | | | | | | | | ]; try (intros H; inversion H; subst; split; [exists []; reflexivity | intros ? Hr; discriminate]).
+    destruct idf as [ | | |ib| | | | | | | | | ]; try (intros H; inversion H; subst; split; [exists []; reflexivity | intros ? Hr; discriminate]).
+    pose proof (get_stream_snd now d k) as Hsnd.
+    assert (Hacc1 : Forall (fun ka => resolved now gn (snd (eng_get now d k)) (fst ka)) acc).
+    { eapply Forall_impl; [|exact Hacc]. intros ka Hka. apply resolved_eng_get. exact Hka. }
+    assert (Hone : exists ks, snd (eng_get now d k) = expire_keys now ks d) by (exists [k]; reflexivity).
+    assert (Hchain : forall ks d2, d2 = expire_keys now ks (snd (eng_get now d k)) -> exists ks', d2 = expire_keys now ks' d).
+    { intros ks d2 ->. exists (k :: ks). reflexivity. }
+    destruct (get_stream now d k) as [res d0] eqn:Eg. cbn [snd] in Hsnd. subst d0.
+    destruct res as [e s| |].
+    + (* the key holds a live stream: the database is unchanged *)
+      assert (Hlive : get_entry d k = Some e /\ expired now e = false /\ e_val e = VStream s /\ snd (eng_get now d k) = d).
+      { unfold get_stream, eng_get in *. destruct (get_entry d k) as [e0|] eqn:Ee; [|discriminate].
+        destruct (expired now e0) eqn:Ex; [discriminate|]. cbn [fst snd] in *. destruct (e_val e0) eqn:Ev; try discriminate.
+        inversion Eg; subst. auto. }
+      destruct Hlive as (L1 & L2 & L3 & L4).
+      destruct (if beq ib (bs ">") then Some sid_max
+                else if beq ib (bs "0") || beq ib (bs "0-0") then Some sid_zero else sid_of_bytes ib) as [a|].
+      2:{ intros H; inversion H; subst. split; [exact Hone | intros ? Hr; discriminate]. }
+      destruct (alookup gn (s_groups s)) as [g|] eqn:Egn.
+      2:{ intros H; inversion H; subst. split; [exact Hone | intros ? Hr; discriminate]. }
+      intros H. apply IH in H.
+      * destruct H as [[ks Hks] Hr]. split; [eapply Hchain; exact Hks | exact Hr].
+      * apply Forall_app. split; [exact Hacc1|]. constructor; [|constructor]. cbn [fst]. rewrite L4.
+        exists e, s. rewrite Egn. repeat split; auto. discriminate.
+    + intros H. apply IH in H; [|exact Hacc1].
+      destruct H as [[ks Hks] Hr]. split; [eapply Hchain; exact Hks | exact Hr].
+    + intros H; inversion H; subst. split; [exact Hone | intros ? Hr; discriminate].
+Qed.
+
+Lemma deliver_no_error now gn c o : forall reads d acc,
+  Forall (fun ka => resolved now gn d (fst ka)) reads ->
+  is_error (fst (xreadgroup_deliver now d gn c o reads acc)) = false.
+Proof.
+  induction reads as [|[k a] reads IH]; intros d acc Hres; cbn [xreadgroup_deliver].
+  - destruct acc; [destruct (ro_block o)|]; reflexivity.
+  - inversion Hres as [|? ? Hk Hrest]; subst. cbn [fst] in Hk. destruct Hk as (e & s & H1 & H2 & H3 & H4).
+    unfold raw_stream. rewrite H1, H3. destruct (alookup gn (s_groups s)) as [g|] eqn:Eg; [|contradiction].
+    assert (Hnext : forall g', Forall (fun ka => resolved now gn (put_group d k e s gn g') (fst ka)) reads).
+    { intros g'. eapply Forall_impl; [|exact Hrest]. intros ka Hka. apply resolved_put_group; assumption. }
+    destruct (st_read_group now s g c a (ro_count o) (ro_noack o)) as [es g'].
+    destruct es; [destruct (sid_eqb a sid_max)|]; apply IH; auto.
+Qed.
+
+(** A failing XREADGROUP - whichever key, ID or group of a multi-key command is the
+    offending one - changes no stream and no group: the database afterwards is the
+    database before, minus the expired keys that storage.get removed on the way *)
+Theorem xreadgroup_error_atomic now d parts :
+  is_error (fst (h_xreadgroup now d parts)) = true ->
+  exists ks, snd (h_xreadgroup now d parts) = expire_keys now ks d.
+Proof.
+  unfold h_xreadgroup.
+  assert (Hsame : forall x : frame, exists ks, snd (x, d) = expire_keys now ks d) by (intros x; exists []; reflexivity).
+  destruct (nparts parts <? 6); [intros _; apply (Hsame r_err)|].
+  destruct (negb (is_kw (nth_error parts 1) "GROUP")); [intros _; apply (Hsame r_err)|].
+  destruct (nth_arg parts 2) as [gn|]; [|intros _; apply (Hsame r_err)].
+  destruct (nth_arg parts 3) as [c|]; [|intros _; apply (Hsame r_err)].
+  destruct (scan_ropts _ _ _ _) as [o rest|]; [|intros _; apply (Hsame r_err)].
+  destruct (negb (len rest mod 2 =? 0)); [intros _; apply (Hsame r_err)|].
+  destruct (xreadgroup_resolve now d gn (firstn (Z.to_nat (len rest / 2)) rest) (skipn (Z.to_nat (len rest / 2)) rest) [])
+    as [[err|reads] d1] eqn:E.
+  - intros _. cbn [snd]. apply (resolve_facts now gn _ _ _ _ _ _ (Forall_nil _) E).
+  - destruct (resolve_facts now gn _ _ _ _ _ _ (Forall_nil _) E) as [_ Hr]. specialize (Hr reads eq_refl).
+    rewrite (deliver_no_error now gn c o reads d1 [] Hr). discriminate.
+Qed.
+Theorem xreadgroup_error_no_effect now d parts :
+  (forall k e, get_entry d k = Some e -> expired now e = false) ->
+  is_error (fst (h_xreadgroup now d parts)) = true -> snd (h_xreadgroup now d parts) = d.
+Proof.
+  intros Hne Herr. destruct (xreadgroup_error_atomic now d parts Herr) as [ks ->].
+  unfold expire_keys. induction ks as [|k ks IH]; cbn [fold_left]; [reflexivity|].
+  assert (snd (eng_get now d k) = d) as ->; [|exact IH].
+  unfold eng_get. destruct (get_entry d k) as [e|] eqn:E; [|reflexivity]. rewrite (Hne k e E). reflexivity.
+Qed.
